@@ -3,7 +3,7 @@ EXTENDS SpyneNull, Json, IOUtils
 TraceLog == ndJsonDeserialize(IOEnv.TRACE_FILE)
 VARIABLE tid
 \* JSON turns the function 1..n -> Modes into an array; rebuild the case
-CaseOf(t) == [style |-> TraceLog[t].case.style, ret |-> TraceLog[t].case.ret, modes |-> TraceLog[t].case.modes, rename |-> TraceLog[t].case.rename, dflt |-> TraceLog[t].case.dflt, aux |-> TraceLog[t].case.aux, ostr |-> TraceLog[t].case.ostr]
+CaseOf(t) == [style |-> TraceLog[t].case.style, ret |-> TraceLog[t].case.ret, modes |-> TraceLog[t].case.modes, rename |-> TraceLog[t].case.rename, dflt |-> TraceLog[t].case.dflt, aux |-> TraceLog[t].case.aux, narrow |-> TraceLog[t].case.narrow, ostr |-> TraceLog[t].case.ostr]
 Fails(t) == IF "history" \in DOMAIN TraceLog[t] THEN HistoryFails(TraceLog[t].history, TraceLog[t].obs)
             ELSE {n \in ClauseNames : ~Holds(n, CaseOf(t), TraceLog[t].obs)}
 Init == tid \in 1..Len(TraceLog)
